@@ -31,6 +31,10 @@ func FormatVerdict(format, s string) (valid, known bool) {
 	if !ok {
 		return false, false
 	}
+	if s == "" {
+		// the empty string is an instance of no format except a regular expression
+		return format == "regexp", true
+	}
 	for _, v := range t.valid {
 		if v == s {
 			return true, true
